@@ -227,12 +227,15 @@ def extract(repo):
     flag("bbrSetCwndClamped", t.endswith("self.cwnd = cwnd.clamp( Self::minimum_window(self.max_datagram_size), self.bound_cwnd_for_model(), );")
          and t.count("self.cwnd =") == 1,
          "set_cwnd: the only write is cwnd.clamp(minimum_window(mds), bound_cwnd_for_model())")
-    m = re.search(r"\} else if cwnd < max_inflight \|\| self\.bw_estimator\.delivered_bytes\(\) < 2 \* initial_cwnd as u64 \{ cwnd (\S+) newly_acked as u32; \}", t)
-    if m and "cwnd = cwnd.saturating_add(newly_acked as u32);" in t:
-        o.define("bbrGrowthUnchecked", "Bool", "true" if m.group(1) == "+=" else "false",
-                 "set_cwnd: the not-filled-pipe branch grows with a plain `+=` (filled pipe: saturating_add)")
+    m = re.search(r"\} else if cwnd < max_inflight \|\| self\.bw_estimator\.delivered_bytes\(\) < 2 \* initial_cwnd as u64 \{ ([^{}]*) \} else \{", t)
+    site = m.group(1).strip() if m else None
+    variants = {"cwnd += newly_acked as u32;": "false", "cwnd = cwnd.saturating_add(newly_acked as u32);": "true"}
+    if site in variants and "cwnd = cwnd.saturating_add(newly_acked as u32); if cwnd >= max_inflight {" in t:
+        o.define("bbrGrowthSaturating", "Bool", variants[site],
+                 "set_cwnd, not-filled-pipe branch: `cwnd += newly_acked as u32` (false) or `cwnd = cwnd.saturating_add(newly_acked as u32)` (true); "
+                 "the filled-pipe branch is saturating_add")
     else:
-        o.fail("bbrGrowthUnchecked", "Bool", "false", "set_cwnd growth branches changed")
+        o.fail("bbrGrowthSaturating", "Bool", "false", "set_cwnd growth branches changed: " + repr(site))
     b = body_of(bbr, r"fn\s+bound_cwnd_for_model\s*\(")
     t = ws(b) if b else ""
     flag("bbrBoundFloored", t.endswith("cap.min(inflight_lo) .max(Self::minimum_window(self.max_datagram_size))"),
